@@ -8,7 +8,10 @@ read_pil_cfg    [class table (ignored), class names (ignored), slots, prelude, t
                 held before, registries observed before and after everything is dropped
 read_pil_release [text]  read a document, keep weak references to every object of the result, drop the
                 dictionary, run ONE gc.collect() and report the survivors (C05)
-c14_views       [text, ignore]  read_pil(text) vs read_pil(path, is_file=True) vs line-by-line reading"""
+c14_views       [text, ignore]  read_pil(text) vs read_pil(path, is_file=True) vs line-by-line reading
+reader_consistent [text]  True when set_io_objects(); read_pil(text) returns a dictionary (the model op of the
+                same name computes whether the statements form a consistent system, which by
+                C14_reader_builds implies that the document is read)"""
 import gc, os, tempfile, weakref
 
 
@@ -58,6 +61,19 @@ def register(op):
         try:
             out = objectio.read_pil(text, ignore=ignore)
             return canon(out)
+        finally:
+            out = None
+            fresh()
+
+    @op("reader_consistent")
+    def _(a):
+        (text,) = a
+        fresh()
+        objectio.set_io_objects()
+        out = None
+        try:
+            out = objectio.read_pil(text)
+            return isinstance(out, dict)
         finally:
             out = None
             fresh()
